@@ -67,21 +67,31 @@ pub const DIFFCHANGE_INTERVAL: u32 = 2016;
 
 // ---- txoo proofs: TxoProof { attestations, proof: ProofType } with pub fields ---------------
 #[verifier::external_body]
-pub struct VxAttestations { _p: u8 }
+pub struct VxAttestation { _p: u8 }      // txoo SignedAttestation
 #[verifier::external_body]
 pub struct VxFilterBytes { _p: u8 }
 #[verifier::external_body]
 pub struct VxBlock { _p: u8 }
 pub struct SpvProof { pub txs: Vec<Transaction>, pub vx_rest: VxFilterBytes }
 pub enum ProofType { Filter(VxFilterBytes, SpvProof), Block(VxBlock), ExternalBlock() }
-pub struct TxoProof { pub attestations: VxAttestations, pub proof: ProofType }
+pub struct TxoProof { pub attestations: Vec<(PublicKey, VxAttestation)>, pub proof: ProofType }
 pub uninterp spec fn proof_filter_header(p: TxoProof) -> FilterHeader;
 impl ProofType {
     pub fn is_external(&self) -> (r: bool) ensures r == (*self is ExternalBlock) {
         match self { ProofType::ExternalBlock() => true, _ => false }
     }
 }
+pub enum VerifyError { InvalidAttestation, Other }
+// txoo TxoProof::verify: SPV / filter proof for the watched outpoints and the attestation signatures (TCB)
+pub uninterp spec fn txoo_proof_verifies(p: TxoProof, height: u32, header: BlockHeader, external: Option<BlockHash>,
+    prev_filter_header: FilterHeader, watches: Seq<OutPoint>) -> bool;
 impl TxoProof {
+    #[verifier::external_body]
+    pub fn verify(&self, height: u32, header: &BlockHeader, external: Option<&BlockHash>, prev_filter_header: &FilterHeader,
+        watches: &[OutPoint], secp: &VxSecpAll) -> (r: Result<(), VerifyError>)
+        ensures r.is_ok() == txoo_proof_verifies(*self, height, *header, (match external { Some(h) => Some(*h), None => None }),
+            *prev_filter_header, watches@)
+    { unimplemented!() }
     #[verifier::external_body]
     pub fn filter_header(&self) -> (r: FilterHeader) ensures r == proof_filter_header(*self) { unimplemented!() }
 }
@@ -91,6 +101,9 @@ impl FilterHeader {
     pub fn vx_all_zero(&self) -> (r: bool) ensures r == self.is_all_zero() { unimplemented!() }
 }
 
+#[verifier::external_body]
+pub struct VxSecpAll { _p: u8 }
+impl VxSecpAll { #[verifier::external_body] pub fn new() -> VxSecpAll { unimplemented!() } }
 } // verus!
 verus! {
 // alloc::collections::VecDeque operations vstd does not specify (TCB): standard sequence semantics
